@@ -259,6 +259,11 @@ def check_order(spec, pipe, tier, seed, res):
   perms = [dict(zip(groups, combo)) for combo in itertools.product(
       *[list(itertools.permutations(range(len(k)))) for k in groups.values()])]
   perms = perms[1:]                      # drop the identity
+  if len(perms) > 6:
+    # several sibling groups: every permutation of each group alone plus the
+    # all-reversed one (the full product is explored in the thorough tier)
+    if tier == 'quick':
+      perms = perms[:5] + perms[-1:]
   sys, _ = scope.load(spec)
   rng = scope.rng_for(seed, 'c05ord', str(scope.skeleton(spec)))
   from mc.props import c04
@@ -419,6 +424,17 @@ def _order_models(seed, tier):
       s['actuators'] = []
       s['option'] = dict(timestep=0.002)
       out.append(s)
+  # level-grouping patterns of scan.tree: three roots with uneven child
+  # counts (2/0/1, 1/0/2, ...); single-joint links
+  stars = [sh for sh in phys.star_forests(6) if sh.count(-1) == 3 and
+           len(sh) == 6]
+  if tier == 'quick':
+    stars = [sh for sh in stars if sh in ((-1, 0, 0, -1, -1, 4),
+                                          (-1, 0, -1, -1, 3, 3))]
+  for s in phys.level_pattern_models(seed, stars, tag='c05lvl'):
+    s['actuators'] = []
+    s['option'] = dict(timestep=0.002)
+    out.append(s)
   return out
 
 
